@@ -178,14 +178,7 @@ def check(ctx):
         ctx.fail("C08.c", "anchor-lost:schedule_despawn_reactions", "", str(e))
 
     # ---- C08.d dispatch loops are exhaustive (shared with C01.b) ----
-    sub = core.Ctx(ctx.prop, ctx.prog, ctx.tier, ctx.meta)
-    c01.check(sub)
-    nshared = 0
-    for o in sub.obligations:
-        if o["rule"] == "C01.b" and ("schedule_removal_reactions" in o["key"] or "schedule_despawn_reactions" in o["key"]):
-            ctx._rec("C08.d", o["key"], o["where"], o["detail"], o["ok"], o["path"])
-            ctx.obligations[-1]["key"] = "C08.d<=" + o["key"]
-            nshared += 1
+    nshared = core.adopt(ctx, c01, lambda o: o["rule"] == "C01.b" and ("schedule_removal_reactions" in o["key"] or "schedule_despawn_reactions" in o["key"]), "C08.d")
     ctx.floor("C08.d", nshared, 8, "shared C01.b obligations of the polled schedulers")
 
     # ---- C08.e poll coverage ----
